@@ -8,7 +8,7 @@ missed=0
 for id in "${ids[@]}"; do
   prop=${id%%-*}
   if ! git -C /repo diff --quiet; then echo "/repo has uncommitted changes"; exit 2; fi
-  if ! git -C /repo apply --3way seeded/$id/patch.diff 2>/dev/null && ! git -C /repo apply seeded/$id/patch.diff; then
+  if ! git -C /repo apply --3way /verif/seeded/$id/patch.diff 2>/dev/null && ! git -C /repo apply /verif/seeded/$id/patch.diff; then
     echo "SEEDED $id: patch does not apply"; missed=$((missed+1)); git -C /repo checkout -q -- . ; continue
   fi
   out=$(timeout 2400 ./check $prop quick 2>&1); rc=$?
